@@ -6,7 +6,7 @@
 ; @template List
 (declare-datatypes (({L} 0)) (((nil_{L}) (cons_{L} (hd_{L} {E}) (tl_{L} {L})))))
 (define-fun-rec len_{L} ((l {L})) Int (ite ((_ is nil_{L}) l) 0 (+ 1 (len_{L} (tl_{L} l)))))
-(assert (forall ((l {L})) (! (>= (len_{L} l) 0) :pattern ((len_{L} l)))))
+(assert (forall ((l {L})) (! (>= (len_{L} l) 0) :pattern ((len_{L} l))))) ; @derived
 (define-fun-rec cat_{L} ((a {L}) (b {L})) {L} (ite ((_ is nil_{L}) a) b (cons_{L} (hd_{L} a) (cat_{L} (tl_{L} a) b))))
 (define-fun-rec nth_{L} ((l {L}) (i Int)) {E} (ite (<= i 0) (hd_{L} l) (nth_{L} (tl_{L} l) (- i 1))))
 (define-fun-rec take_{L} ((n Int) (l {L})) {L} (ite (or (<= n 0) ((_ is nil_{L}) l)) nil_{L} (cons_{L} (hd_{L} l) (take_{L} (- n 1) (tl_{L} l)))))
@@ -17,7 +17,7 @@
 ; @template Trace
 (declare-datatypes (({T} 0)) (((emp_{T}) (snoc_{T} (init_{T} {T}) (last_{T} {E})))))
 (define-fun-rec tlen_{T} ((l {T})) Int (ite ((_ is emp_{T}) l) 0 (+ 1 (tlen_{T} (init_{T} l)))))
-(assert (forall ((l {T})) (! (>= (tlen_{T} l) 0) :pattern ((tlen_{T} l)))))
+(assert (forall ((l {T})) (! (>= (tlen_{T} l) 0) :pattern ((tlen_{T} l))))) ; @derived
 (define-fun-rec tcat_{T} ((a {T}) (b {T})) {T} (ite ((_ is emp_{T}) b) a (snoc_{T} (tcat_{T} a (init_{T} b)) (last_{T} b))))
 (define-fun-rec ttake_{T} ((n Int) (l {T})) {T} (ite ((_ is emp_{T}) l) emp_{T} (ite (< (tlen_{T} (init_{T} l)) n) (snoc_{T} (ttake_{T} n (init_{T} l)) (last_{T} l)) (ttake_{T} n (init_{T} l)))))
 (define-fun-rec tprefix_{T} ((a {T}) (b {T})) Bool (or (= a b) (and ((_ is snoc_{T}) b) (tprefix_{T} a (init_{T} b)))))
@@ -26,3 +26,11 @@
 ; the trace holding the elements of a cons list, in order (accumulator form: tol(acc, l))
 (define-fun-rec tol_{T} ((acc {T}) (l {L})) {T} (ite ((_ is nil_{L}) l) acc (tol_{T} (snoc_{T} acc (hd_{L} l)) (tl_{L} l))))
 (define-fun-rec lot_{T} ((l {T}) (acc {L})) {L} (ite ((_ is emp_{T}) l) acc (lot_{T} (init_{T} l) (cons_{L} (last_{T} l) acc))))
+
+; @template FoldM
+; left fold of a cons list with the Combine of a monoid instance m
+(define-fun-rec foldm_{L}_{COMB} ((m Ref) (acc {E}) (l {L})) {E} (ite ((_ is nil_{L}) l) acc (foldm_{L}_{COMB} m ({COMB} m acc (hd_{L} l)) (tl_{L} l))))
+
+; @template TFoldM
+; left fold of a snoc trace: fold(l . v) = Combine(fold(l), v)
+(define-fun-rec tfoldm_{T}_{COMB} ((m Ref) (acc {E}) (l {T})) {E} (ite ((_ is emp_{T}) l) acc ({COMB} m (tfoldm_{T}_{COMB} m acc (init_{T} l)) (last_{T} l))))
